@@ -371,4 +371,245 @@ theorem entries_snoc (es : Entries) (hwf : es.WF = true) (hnz : es.interpEndNonz
 
 end numbers
 
+/-! ## classifiers, separators -/
+
+def reqClassifier : Prods :=
+  reqPadding ++
+  [("classifier", ["data_prefix"]), ("classifier", ["modifier", "data_prefix"]),
+   ("classifier", ["classifier", "NUMBER"]), ("classifier", ["classifier", "particle_type"]),
+   ("data_prefix", ["TEXT"]), ("data_prefix", ["KEYWORD"]), ("data_prefix", ["PARTICLE"]), ("modifier", ["*"]),
+   ("particle_type", [":", "part"]), ("particle_type", ["particle_type", ",", "part"]), ("part", ["PARTICLE"]),
+   ("param_seperator", ["padding"]), ("param_seperator", ["equals_sign"]),
+   ("param_seperator", ["padding", "equals_sign"]), ("equals_sign", ["="]), ("equals_sign", ["=", "padding"])]
+
+theorem reqPadding_sub_classifier : reqPadding ⊆ reqClassifier := by decide
+
+section classifier
+variable (hP : reqClassifier ⊆ P)
+include hP
+
+theorem particles_snoc : ∀ (rest : List String) (w : List String), Der P "particle_type" w →
+    Der P "particle_type" (w ++ rest.flatMap (fun _ => [",", "PARTICLE"])) := by
+  intro rest
+  induction rest with
+  | nil => intro w h; simpa using h
+  | cons x xs ih =>
+    intro w h
+    have hpart : Der P "part" ["PARTICLE"] := Der.rule (hP (by decide : ("part", ["PARTICLE"]) ∈ reqClassifier)) (.tok .nil)
+    have step : Der P "particle_type" (w ++ [",", "PARTICLE"]) :=
+      (Der.rule (hP (by decide : ("particle_type", ["particle_type", ",", "part"]) ∈ reqClassifier))
+        (.nt h (.tok (.nt hpart .nil)))).cast (by simp)
+    have := ih _ step
+    simpa [List.append_assoc] using this
+
+theorem classifier_der (c : Classifier) (hwf : c.WF = true) : Der P "classifier" c.classes := by
+  have hprefix : Der P "data_prefix" [c.nameCls] := by
+    have : c.nameCls = "TEXT" ∨ c.nameCls = "KEYWORD" ∨ c.nameCls = "PARTICLE" := by
+      simpa [Classifier.WF] using hwf
+    rcases this with h | h | h <;> rw [h]
+    · exact Der.rule (hP (by decide : ("data_prefix", ["TEXT"]) ∈ reqClassifier)) (.tok .nil)
+    · exact Der.rule (hP (by decide : ("data_prefix", ["KEYWORD"]) ∈ reqClassifier)) (.tok .nil)
+    · exact Der.rule (hP (by decide : ("data_prefix", ["PARTICLE"]) ∈ reqClassifier)) (.tok .nil)
+  have h0 : Der P "classifier" ((if c.star then ["*"] else []) ++ [c.nameCls]) := by
+    cases c.star
+    · exact (Der.rule (hP (by decide : ("classifier", ["data_prefix"]) ∈ reqClassifier)) (.nt hprefix .nil)).cast (by simp)
+    · have hm : Der P "modifier" ["*"] := Der.rule (hP (by decide : ("modifier", ["*"]) ∈ reqClassifier)) (.tok .nil)
+      exact (Der.rule (hP (by decide : ("classifier", ["modifier", "data_prefix"]) ∈ reqClassifier))
+        (.nt hm (.nt hprefix .nil))).cast (by simp)
+  have h1 : Der P "classifier" ((if c.star then ["*"] else []) ++ [c.nameCls] ++
+      Classifier.numberClasses c.number) := by
+    cases c.number with
+    | none => simpa [Classifier.numberClasses] using h0
+    | some _ =>
+      exact (Der.rule (hP (by decide : ("classifier", ["classifier", "NUMBER"]) ∈ reqClassifier)) (.nt h0 (.tok .nil))).cast
+        (by simp [Classifier.numberClasses])
+  unfold Classifier.classes
+  cases hp : c.particles with
+  | nil => simpa [Classifier.particleClasses] using h1
+  | cons p ps =>
+    have hpart : Der P "part" ["PARTICLE"] := Der.rule (hP (by decide : ("part", ["PARTICLE"]) ∈ reqClassifier)) (.tok .nil)
+    have hpt0 : Der P "particle_type" [":", "PARTICLE"] :=
+      (Der.rule (hP (by decide : ("particle_type", [":", "part"]) ∈ reqClassifier)) (.tok (.nt hpart .nil))).cast (by simp)
+    have hpt := particles_snoc hP ps _ hpt0
+    exact (Der.rule (hP (by decide : ("classifier", ["classifier", "particle_type"]) ∈ reqClassifier))
+      (.nt h1 (.nt hpt .nil))).cast (by simp [Classifier.particleClasses])
+
+theorem sep_der (s : Sep) (hwf : s.WF = true) : Der P "param_seperator" s.classes := by
+  have hpad : reqPadding ⊆ P := fun _ h => hP (reqPadding_sub_classifier h)
+  simp [Sep.WF] at hwf
+  obtain ⟨⟨⟨hb, ha⟩, h1⟩, h2⟩ := hwf
+  unfold Sep.classes
+  cases heq : s.eq with
+  | false =>
+    have hbne : s.before ≠ [] := by
+      rcases h1 with h | h
+      · simp [heq] at h
+      · exact h
+    have hae : s.after = [] := by
+      rcases h2 with h | h
+      · simp [heq] at h
+      · exact h
+    have hp := pad_der hpad s.before hb hbne
+    exact (Der.rule (hP (by decide : ("param_seperator", ["padding"]) ∈ reqClassifier)) (.nt hp .nil)).cast
+      (by simp [hae, Gap.cls])
+  | true =>
+    have heqs : Der P "equals_sign" ("=" :: s.after.cls) :=
+      phrase_der hpad (hP (by decide)) (hP (by decide)) s.after ha
+    by_cases hbe : s.before = []
+    · exact (Der.rule (hP (by decide : ("param_seperator", ["equals_sign"]) ∈ reqClassifier)) (.nt heqs .nil)).cast
+        (by simp [hbe, Gap.cls])
+    · have hp := pad_der hpad s.before hb hbe
+      exact (Der.rule (hP (by decide : ("param_seperator", ["padding", "equals_sign"]) ∈ reqClassifier))
+        (.nt hp (.nt heqs .nil))).cast (by simp)
+
+end classifier
+
+/-! ## cell cards -/
+
+def reqCell : Prods :=
+  reqGeometry ++ reqNumbers ++ reqClassifier ++
+  [("parameter", ["classifier", "param_seperator", "number_sequence"]),
+   ("parameters", ["parameter"]), ("parameters", ["parameters", "parameter"]),
+   ("number_sequence", ["number_sequence", "(", "number_sequence", ")"]),
+   ("number_sequence", ["number_sequence", "(", "number_sequence", ")", "padding"]),
+   ("number_sequence", ["number_sequence", ":", "numerical_phrase"]),
+   ("number_sequence", ["(", "number_sequence", ")"]), ("number_sequence", ["(", "number_sequence", ")", "padding"]),
+   ("identifier_phrase", ["NUMBER"]), ("identifier_phrase", ["NUMBER", "padding"]),
+   ("null_ident_phrase", ["NULL"]), ("null_ident_phrase", ["NULL", "padding"]),
+   ("material", ["null_ident_phrase"]), ("material", ["identifier_phrase", "number_phrase"]),
+   ("cell", ["identifier_phrase", "material", "geometry_expr"]),
+   ("cell", ["identifier_phrase", "material", "geometry_expr", "parameters"]),
+   ("cell", ["padding", "identifier_phrase", "material", "geometry_expr"]),
+   ("cell", ["padding", "identifier_phrase", "material", "geometry_expr", "parameters"])]
+
+theorem reqGeometry_sub_cell : reqGeometry ⊆ reqCell := by decide
+theorem reqNumbers_sub_cell : reqNumbers ⊆ reqCell := by decide
+theorem reqClassifier_sub_cell : reqClassifier ⊆ reqCell := by decide
+theorem reqPadding_sub_cell : reqPadding ⊆ reqCell := by decide
+
+section cell
+variable (hP : reqCell ⊆ P)
+include hP
+
+theorem pval_der (v : PVal) (hwf : v.WF = true) (hnz : v.interpEndNonzero = true) :
+    Der P "number_sequence" v.classes := by
+  have hnum : reqNumbers ⊆ P := fun _ h => hP (reqNumbers_sub_cell h)
+  have hpad : reqPadding ⊆ P := fun _ h => hP (reqPadding_sub_cell h)
+  cases v with
+  | nums es =>
+    simp [PVal.WF] at hwf
+    exact entries_der hnum es hwf.2 hwf.1 (by simpa [PVal.interpEndNonzero] using hnz)
+  | numsParen es inner after =>
+    simp [PVal.WF] at hwf
+    simp [PVal.interpEndNonzero] at hnz
+    obtain ⟨⟨⟨⟨h1, h2⟩, h3⟩, h4⟩, h5⟩ := hwf
+    have he := entries_der hnum es h2 h1 hnz.1
+    have hi := entries_der hnum inner h4 h3 hnz.2
+    by_cases hg : after = []
+    · subst hg
+      exact (Der.rule (hP (by decide : ("number_sequence", ["number_sequence", "(", "number_sequence", ")"]) ∈ reqCell))
+        (.nt he (.tok (.nt hi (.tok .nil))))).cast (by simp [PVal.classes, Gap.cls])
+    · have hp := pad_der hpad after h5 hg
+      exact (Der.rule (hP (by decide : ("number_sequence", ["number_sequence", "(", "number_sequence", ")", "padding"]) ∈ reqCell))
+        (.nt he (.tok (.nt hi (.tok (.nt hp .nil)))))).cast (by simp [PVal.classes])
+  | paren inner after =>
+    simp [PVal.WF] at hwf
+    simp [PVal.interpEndNonzero] at hnz
+    obtain ⟨⟨h3, h4⟩, h5⟩ := hwf
+    have hi := entries_der hnum inner h4 h3 hnz
+    by_cases hg : after = []
+    · subst hg
+      exact (Der.rule (hP (by decide : ("number_sequence", ["(", "number_sequence", ")"]) ∈ reqCell))
+        (.tok (.nt hi (.tok .nil)))).cast (by simp [PVal.classes, Gap.cls])
+    · have hp := pad_der hpad after h5 hg
+      exact (Der.rule (hP (by decide : ("number_sequence", ["(", "number_sequence", ")", "padding"]) ∈ reqCell))
+        (.tok (.nt hi (.tok (.nt hp .nil))))).cast (by simp [PVal.classes])
+  | lattice a b g1 c d g2 e f g3 us =>
+    simp [PVal.WF] at hwf
+    simp [PVal.interpEndNonzero] at hnz
+    obtain ⟨⟨⟨⟨h1, h2⟩, h3⟩, h4⟩, _⟩ := hwf
+    have k1 := (req_split h1).1
+    have k2 := (req_split h2).1
+    have k3 := (req_split h3).1
+    have rcolon := hP (by decide : ("number_sequence", ["number_sequence", ":", "numerical_phrase"]) ∈ reqCell)
+    have rnext := hP (by decide : ("number_sequence", ["number_sequence", "numerical_phrase"]) ∈ reqCell)
+    have s0 : Der P "number_sequence" [a.cls] :=
+      (Der.rule (hP (by decide : ("number_sequence", ["numerical_phrase"]) ∈ reqCell))
+        (.nt (numerical_phrase_der hnum a [] (by decide)) .nil)).cast (by simp [Gap.cls])
+    have s1 : Der P "number_sequence" ([a.cls, ":", b.cls] ++ g1.cls) :=
+      (Der.rule rcolon (.nt s0 (.tok (.nt (numerical_phrase_der hnum b g1 k1) .nil)))).cast (by simp)
+    have s2 : Der P "number_sequence" ([a.cls, ":", b.cls] ++ g1.cls ++ [c.cls]) :=
+      (Der.rule rnext (.nt s1 (.nt (numerical_phrase_der hnum c [] (by decide)) .nil))).cast (by simp [Gap.cls])
+    have s3 : Der P "number_sequence" ([a.cls, ":", b.cls] ++ g1.cls ++ [c.cls, ":", d.cls] ++ g2.cls) :=
+      (Der.rule rcolon (.nt s2 (.tok (.nt (numerical_phrase_der hnum d g2 k2) .nil)))).cast (by simp)
+    have s4 : Der P "number_sequence" ([a.cls, ":", b.cls] ++ g1.cls ++ [c.cls, ":", d.cls] ++ g2.cls ++ [e.cls]) :=
+      (Der.rule rnext (.nt s3 (.nt (numerical_phrase_der hnum e [] (by decide)) .nil))).cast (by simp [Gap.cls])
+    have s5 : Der P "number_sequence"
+        ([a.cls, ":", b.cls] ++ g1.cls ++ [c.cls, ":", d.cls] ++ g2.cls ++ [e.cls, ":", f.cls] ++ g3.cls) :=
+      (Der.rule rcolon (.nt s4 (.tok (.nt (numerical_phrase_der hnum f g3 k3) .nil)))).cast (by simp)
+    exact (entries_snoc hnum us h4 hnz s5).cast (by simp [PVal.classes])
+
+theorem cellparam_der (p : CellParam) (hwf : p.WF = true) (hnz : p.val.interpEndNonzero = true) :
+    Der P "parameter" p.classes := by
+  have hcl : reqClassifier ⊆ P := fun _ h => hP (reqClassifier_sub_cell h)
+  simp [CellParam.WF] at hwf
+  obtain ⟨⟨h1, h2⟩, h3⟩ := hwf
+  exact (Der.rule (hP (by decide : ("parameter", ["classifier", "param_seperator", "number_sequence"]) ∈ reqCell))
+    (.nt (classifier_der hcl p.key h1) (.nt (sep_der hcl p.sep h2) (.nt (pval_der hP p.val h3 hnz) .nil)))).cast
+    (by simp [CellParam.classes])
+
+theorem cellparams_der (ps : List CellParam) (hne : ps ≠ []) (hwf : ps.all CellParam.WF = true)
+    (hnz : ps.all (fun p => p.val.interpEndNonzero) = true) : Der P "parameters" (ps.flatMap CellParam.classes) :=
+  leftrec CellParam.classes ps hne (fun p hm =>
+    ⟨"parameter", hP (by decide), hP (by decide),
+      cellparam_der hP p ((List.all_eq_true.mp hwf) p hm) ((List.all_eq_true.mp hnz) p hm)⟩)
+
+/-- every well-formed cell card of G derives from `cell` -/
+theorem cell_der (c : CellCard) (hwf : c.WF = true) (hnz : c.interpEndNonzero = true) : Der P "cell" c.classes := by
+  have hgeo : reqGeometry ⊆ P := fun _ h => hP (reqGeometry_sub_cell h)
+  have hnum : reqNumbers ⊆ P := fun _ h => hP (reqNumbers_sub_cell h)
+  have hpad : reqPadding ⊆ P := fun _ h => hP (reqPadding_sub_cell h)
+  simp [CellCard.WF] at hwf
+  obtain ⟨⟨⟨⟨⟨⟨⟨hlead, hg0⟩, hg1⟩, hg2⟩, hgeom⟩, hmat⟩, hps⟩, hsep⟩ := hwf
+  have hid : Der P "identifier_phrase" ("NUMBER" :: c.g0.cls) :=
+    phrase_der hpad (hP (by decide)) (hP (by decide)) c.g0 (req_split hg0).1
+  have hgeo' := (geom_der hgeo c.geometry hgeom).2.2.2 c.g2 hg2
+  -- the material, with the gap g1 that follows it
+  have hmatd : ∃ wm, Der P "material" wm ∧
+      c.classes = c.lead.cls ++ ("NUMBER" :: c.g0.cls) ++ wm ++ (c.geometry.classes ++ c.g2.cls) ++
+        c.params.flatMap CellParam.classes := by
+    cases hm : c.material with
+    | none =>
+      refine ⟨"NULL" :: c.g1.cls, ?_, by simp [CellCard.classes, hm]⟩
+      have : Der P "null_ident_phrase" ("NULL" :: c.g1.cls) :=
+        phrase_der hpad (hP (by decide)) (hP (by decide)) c.g1 (req_split hg1).1
+      exact (Der.rule (hP (by decide : ("material", ["null_ident_phrase"]) ∈ reqCell)) (.nt this .nil)).cast (by simp)
+    | some m =>
+      obtain ⟨mn, g, d⟩ := m
+      refine ⟨("NUMBER" :: g.cls) ++ ("NUMBER" :: c.g1.cls), ?_, by simp [CellCard.classes, hm]⟩
+      have hg : g.req = true := by simpa [hm] using hmat
+      have h1 : Der P "identifier_phrase" ("NUMBER" :: g.cls) :=
+        phrase_der hpad (hP (by decide)) (hP (by decide)) g (req_split hg).1
+      have h2 := number_phrase_der hnum c.g1 (req_split hg1).1
+      exact (Der.rule (hP (by decide : ("material", ["identifier_phrase", "number_phrase"]) ∈ reqCell))
+        (.nt h1 (.nt h2 .nil))).cast (by simp)
+  obtain ⟨wm, hm, hcls⟩ := hmatd
+  rw [hcls]
+  by_cases hpe : c.params = []
+  · by_cases hle : c.lead = []
+    · exact (Der.rule (hP (by decide : ("cell", ["identifier_phrase", "material", "geometry_expr"]) ∈ reqCell))
+        (.nt hid (.nt hm (.nt hgeo' .nil)))).cast (by simp [hpe, hle, Gap.cls])
+    · have hl := pad_der hpad c.lead hlead hle
+      exact (Der.rule (hP (by decide : ("cell", ["padding", "identifier_phrase", "material", "geometry_expr"]) ∈ reqCell))
+        (.nt hl (.nt hid (.nt hm (.nt hgeo' .nil))))).cast (by simp [hpe])
+  · have hpar := cellparams_der hP c.params hpe (by simpa using hps) (by simpa [CellCard.interpEndNonzero] using hnz)
+    by_cases hle : c.lead = []
+    · exact (Der.rule (hP (by decide : ("cell", ["identifier_phrase", "material", "geometry_expr", "parameters"]) ∈ reqCell))
+        (.nt hid (.nt hm (.nt hgeo' (.nt hpar .nil))))).cast (by simp [hle, Gap.cls])
+    · have hl := pad_der hpad c.lead hlead hle
+      exact (Der.rule (hP (by decide : ("cell", ["padding", "identifier_phrase", "material", "geometry_expr", "parameters"]) ∈ reqCell))
+        (.nt hl (.nt hid (.nt hm (.nt hgeo' (.nt hpar .nil)))))).cast (by simp)
+
+end cell
+
 end MontePyVerif.Cfg
